@@ -394,6 +394,13 @@ func callersIndex(c *report.Ctx) map[*ssa.Function][]ssa.CallInstruction {
 			if call, ok := in.(ssa.CallInstruction); ok {
 				if sc := call.Common().StaticCallee(); sc != nil {
 					m[sc] = append(m[sc], call)
+				} else if !call.Common().IsInvoke() {
+					// a local closure called through the variable (or captured variable) that holds it
+					if mc, ok := chanRoot(call.Common().Value).(*ssa.MakeClosure); ok {
+						if g, ok := mc.Fn.(*ssa.Function); ok {
+							m[g] = append(m[g], call)
+						}
+					}
 				}
 			}
 		})
